@@ -615,6 +615,11 @@ class A:
             return A([fsqrt(c) for c in self.cells], "float64", self.shape)
         raise Unsupported(f"array ** {k}")
 
+    def __rpow__(self, base):
+        if any(is_sym(c) or isinstance(c, SF) for c in self.cells) or not isinstance(base, int):
+            raise Unsupported("base ** symbolic array")
+        return A([base ** int(c) for c in self.cells], self.dtype, self.shape)
+
     def __lt__(self, o): return self._ew(o, _lt, "bool")
     def __gt__(self, o): return self._ew(o, lambda a, b: _lt(b, a), "bool")
     def __le__(self, o): return self._ew(o, _le, "bool")
